@@ -300,6 +300,12 @@ func runSimCorpusFile(t *testing.T, p *simProp, base string, i int, f string, r 
 	repro := 0
 	for k := 0; k < tries; k++ {
 		res := sim.RunScript(t, fmt.Sprintf("%s/r%d-%d", base, i, k), p.Profile, script, hooks)
+		if dump := os.Getenv("VERIF_DUMPHIST"); dump != "" && k == 0 {
+			// debugging aid: the history of the first re-execution
+			if b, err := json.Marshal(res.History); err == nil {
+				os.WriteFile(dump, b, 0o644)
+			}
+		}
 		s, d := judgeResult(t, p, res, f)
 		if s != "" {
 			repro++
